@@ -3,6 +3,7 @@ package worldx
 import (
 	"context"
 	"fmt"
+	metav1 "k8s.io/apimachinery/pkg/apis/meta/v1"
 	"sort"
 	"strings"
 	"time"
@@ -18,10 +19,23 @@ import (
 
 // ---- C08 O1: quotas, checked against the cloud at call time
 
-func (w *World) attachedOrPending() (total, trunk, rdma, secondary int) {
+func (w *World) attachedOrPending(exclude ...string) (total, trunk, rdma, secondary int) {
 	for _, id := range w.cloud.order {
+		if len(exclude) > 0 && exclude[0] != "" && id == exclude[0] {
+			continue // the interface a timed-out attempt of this very request created
+		}
 		e := w.cloud.enis[id]
 		if e == nil || e.Type == aliyunClient.ENITypePrimary {
+			continue
+		}
+		if e.Instance == "" && w.cloud.orphanOfFailedCreate(id) {
+			// created by a call that reported failure: nobody is going to attach it, it takes no
+			// slot of the instance (its fate is the conservation oracle's business)
+			continue
+		}
+		if e.Tags["cluster"] != "c1" {
+			// somebody else's interface (outside the controller's tag filter): it is invisible to
+			// the controller, which can only keep what it manages within the limits
 			continue
 		}
 		inst := e.Instance
@@ -44,9 +58,24 @@ func (w *World) attachedOrPending() (total, trunk, rdma, secondary int) {
 	return
 }
 
-func (w *World) quotaOnCreate(nio *aliyunClient.NetworkInterfaceOptions) {
+// quotaJudged: the quota oracles compare a request with the cloud's state. The property ranges
+// over cloud errors and failed status writes, after which the controller notes that a full sync is
+// due; a controller restart loses that note (it lives in memory only), which is outside what the
+// property quantifies over, so requests made in that window are counted, not judged.
+func (w *World) quotaJudged() bool {
+	if w.amnesia {
+		w.run.Probe("quota-not-judged-after-controller-restart-with-resync-pending")
+		return false
+	}
+	return true
+}
+
+func (w *World) quotaOnCreate(nio *aliyunClient.NetworkInterfaceOptions, sameRequest string) {
 	w.run.Eval()
-	total, trunk, rdma, _ := w.attachedOrPending()
+	if !w.quotaJudged() {
+		return
+	}
+	total, trunk, rdma, _ := w.attachedOrPending(sameRequest)
 	if total+1 > w.cfg.Adapters-1 {
 		w.run.Violate("C08", "quota", "create-over-adapter-limit", "CreateNetworkInterface with %d interfaces already attached or being created; the node allows %d secondary interfaces", total, w.cfg.Adapters-1)
 	}
@@ -66,16 +95,16 @@ func (w *World) quotaOnCreate(nio *aliyunClient.NetworkInterfaceOptions) {
 
 func (w *World) quotaOnAttach(inst string) {}
 
-func (w *World) quotaOnAssign(e *cENI, n int, v6 bool) {
+func (w *World) quotaOnAssign(e *cENI, n, alreadyThere int, v6 bool) {
 	w.run.Eval()
-	if e == nil {
+	if e == nil || !w.quotaJudged() {
 		return
 	}
 	have, lim := len(e.V4), w.cfg.IPv4Per
 	if v6 {
 		have, lim = len(e.V6), w.cfg.IPv6Per
 	}
-	if have+n > lim {
+	if have+n-alreadyThere > lim {
 		w.run.Violate("C08", "quota", "assign-over-ip-per-adapter", "assign on %s: %d present + %d requested > limit %d (v6=%v)", e.ID, have, n, lim, v6)
 	}
 	if n <= 0 {
@@ -126,13 +155,123 @@ func (w *World) settle() {
 		}
 		w.run.Violate("C03", "reclaim-liveness", "address-never-reclaimed", "%s is still bound to %s (uid %q) %s after the pod vanished (DEL processed: %v), %d s after faults stopped", ip, r.ip.PodID, r.ip.PodUID, time.Since(p.goneAt).Round(time.Second), w.delProcessed[r.ip.PodUID], w.sc.SettleS)
 	}
-	// C08 O3: record and cloud agree after failures (one forced full sync is allowed)
+	// C08 O3: record and cloud agree again after the next full synchronisation. The 12 h period
+	// is made to elapse by moving the due time in the record, as the passage of time would.
+	w.forceFullSync()
+	if node = w.truthNode(); node == nil {
+		return
+	}
 	w.conservation(node)
+	w.agreement(node)
 	if !w.sc.Strict {
 		return
 	}
 	// C08 O2 (fault-free runs only): fixed point
 	w.fixedPoint()
+}
+
+func (w *World) waitIdle() {
+	for i := 0; i < 120 && (w.inReconcile || w.cloud.inflight > 0); i++ {
+		simrt.Sleep(time.Second)
+	}
+}
+
+func (w *World) forceFullSync() {
+	w.waitIdle()
+	before := w.cloud.fullReads
+	for try := 0; try < 5 && w.cloud.fullReads == before; try++ {
+		node := w.truthNode()
+		if node == nil {
+			return
+		}
+		node.Status.NextSyncOpenAPITime = metav1.NewTime(time.Now().Add(-time.Second))
+		if err := w.api.Inner.Status().Update(context.Background(), node); err != nil {
+			continue
+		}
+		w.notify()
+		simrt.Sleep(90 * time.Second)
+	}
+	if w.cloud.fullReads == before {
+		w.run.Probe("forced-full-sync-did-not-happen")
+		return
+	}
+	w.run.Probe("forced-full-sync")
+	// interfaces in a transitional state make the sync repeat after 30-60 s
+	simrt.Sleep(5 * time.Minute)
+	w.waitIdle()
+}
+
+// agreement: after a full synchronisation in a fault-free phase, the record and the cloud list the
+// same secondary interfaces for the instance and the same addresses on each.
+func (w *World) agreement(node *networkv1beta1.Node) {
+	if w.inReconcile || w.cloud.inflight > 0 {
+		w.run.Probe("agreement-not-judged-busy")
+		return
+	}
+	w.run.Eval()
+	ids := append([]string{}, w.cloud.order...)
+	sort.Strings(ids)
+	seen := map[string]bool{}
+	for _, id := range ids {
+		e := w.cloud.enis[id]
+		if e == nil || e.Instance != instanceID || e.Type == aliyunClient.ENITypePrimary || e.Tags["cluster"] != "c1" {
+			continue
+		}
+		seen[id] = true
+		ni := node.Status.NetworkInterfaces[id]
+		if ni == nil {
+			w.run.Violate("C08", "agreement", "record-misses-interface-after-full-sync", "interface %s (%s) is attached to the instance and absent from the record after a full synchronisation", id, e.Status)
+			continue
+		}
+		for _, fam := range []struct {
+			name  string
+			cloud map[string]bool
+			rec   map[string]*networkv1beta1.IP
+		}{{"IPv4", setOf(e.V4), ni.IPv4}, {"IPv6", setOf(e.V6), ni.IPv6}} {
+			cl := make([]string, 0, len(fam.cloud))
+			for k := range fam.cloud {
+				cl = append(cl, k)
+			}
+			sort.Strings(cl)
+			for _, ip := range cl {
+				if fam.rec[ip] == nil {
+					w.run.Violate("C08", "agreement", "record-misses-address-after-full-sync", "%s address %s is on interface %s in the cloud and absent from the record after a full synchronisation", fam.name, ip, id)
+				}
+			}
+			rk := make([]string, 0, len(fam.rec))
+			for k := range fam.rec {
+				rk = append(rk, k)
+			}
+			sort.Strings(rk)
+			for _, ip := range rk {
+				if !fam.cloud[ip] {
+					w.run.Violate("C08", "agreement", "record-keeps-address-cloud-lacks-after-full-sync", "%s address %s (status %s) is recorded on interface %s and the cloud does not have it after a full synchronisation", fam.name, ip, fam.rec[ip].Status, id)
+				}
+			}
+		}
+	}
+	rids := make([]string, 0, len(node.Status.NetworkInterfaces))
+	for id := range node.Status.NetworkInterfaces {
+		rids = append(rids, id)
+	}
+	sort.Strings(rids)
+	for _, id := range rids {
+		if !seen[id] {
+			st := "gone"
+			if e := w.cloud.enis[id]; e != nil {
+				st = e.Status + " on " + e.Instance
+			}
+			w.run.Violate("C08", "agreement", "record-keeps-interface-cloud-lacks-after-full-sync", "interface %s is in the record (status %s); in the cloud it is %s", id, node.Status.NetworkInterfaces[id].Status, st)
+		}
+	}
+}
+
+func setOf(l []string) map[string]bool {
+	m := map[string]bool{}
+	for _, x := range l {
+		m[x] = true
+	}
+	return m
 }
 
 func (w *World) conservation(node *networkv1beta1.Node) {
@@ -151,16 +290,28 @@ func (w *World) conservation(node *networkv1beta1.Node) {
 		if age < 20*time.Minute {
 			continue
 		}
-		w.run.Violate("C08", "rollback", "interface-created-but-not-recorded", "interface %s (status %s, instance %q) was created by the controller %s ago and is neither recorded nor deleted", id, e.Status, e.Instance, age.Round(time.Second))
+		fp := "interface-created-but-not-recorded"
+		if w.cloud.orphanOfFailedCreate(id) {
+			// the create call itself reported an error after taking effect and was never
+			// retried with the same parameters: the controller never learnt the id
+			fp += "@create-failed-after-effect"
+		}
+		w.run.Violate("C08", "rollback", fp, "interface %s (status %s, instance %q) was created by the controller %s ago and is neither recorded nor deleted", id, e.Status, e.Instance, age.Round(time.Second))
 	}
 }
 
 func (w *World) fixedPoint() {
+	// the probe reconciles below are issued from here: the controller's own runner is stopped
+	// first, as one key is never reconciled twice at a time
+	w.waitIdle()
+	w.ctlGen++
+	close(w.stopCtl(w.ctlGen - 1))
 	node := w.truthNode()
 	all := flatten(node)
+	tag := w.knownCycleCause(node)
 	// every eligible pod has its address(es)
 	for _, p := range w.pods {
-		if !p.exists {
+		if !p.exists || p.exited {
 			continue
 		}
 		v4, v6, _ := bindingsOf(node, ns+"/"+p.spec.Name)
@@ -183,7 +334,7 @@ func (w *World) fixedPoint() {
 		}
 	}
 	if idle > w.cfg.MaxPool+w.undisposable(node) {
-		w.run.Violate("C08", "convergence", "idle-above-max", "idle=%d above max=%d (+%d primary addresses that cannot be released) in a fault-free settle phase", idle, w.cfg.MaxPool, w.undisposable(node))
+		w.run.Violate("C08", "convergence", "idle-above-max"+tag, "idle=%d above max=%d (+%d primary addresses that cannot be released) in a fault-free settle phase", idle, w.cfg.MaxPool, w.undisposable(node))
 	}
 	// further reconciles change nothing
 	m0, s0 := w.cloud.mutations, w.statusWrites
@@ -192,12 +343,40 @@ func (w *World) fixedPoint() {
 		simrt.Sleep(2 * time.Second)
 	}
 	if w.cloud.mutations != m0 {
-		w.run.Violate("C08", "convergence", "no-fixed-point-cloud", "three further reconciles issued cloud mutations: %v", w.cloud.history[len(w.cloud.history)-(w.cloud.mutations-m0):])
+		extra := w.cloud.history[len(w.cloud.history)-(w.cloud.mutations-m0):]
+		w.run.Violate("C08", "convergence", "no-fixed-point-cloud"+tag, "three further reconciles issued cloud mutations: %v", extra)
 	}
 	if w.statusWrites != s0 {
-		w.run.Violate("C08", "convergence", "no-fixed-point-status", "three further reconciles wrote the node status %d times", w.statusWrites-s0)
+		w.run.Violate("C08", "convergence", "no-fixed-point-status"+tag, "three further reconciles wrote the node status %d times", w.statusWrites-s0)
 	}
 	w.run.Probe("fixed-point-checked")
+}
+
+// knownCycleCause names the recorded defect (known_findings.json) whose precondition the record
+// meets, so that only a failure to converge with that specific cause is attributed to it.
+func (w *World) knownCycleCause(node *networkv1beta1.Node) string {
+	// K3b: trimming counts the idle addresses of RDMA interfaces, refilling (for ordinary pods)
+	// does not; with more idle RDMA addresses than the band is wide there is no pool size at
+	// which both are satisfied.
+	rdmaIdle := 0
+	for _, ni := range node.Status.NetworkInterfaces {
+		if ni.Status != aliyunClient.ENIStatusInUse || ni.NetworkInterfaceTrafficMode != networkv1beta1.NetworkInterfaceTrafficModeHighPerformance {
+			continue
+		}
+		fam := ni.IPv4
+		if !w.cfg.v4() {
+			fam = ni.IPv6
+		}
+		for _, ip := range fam {
+			if ip != nil && ip.PodID == "" && ip.Status == networkv1beta1.IPStatusValid {
+				rdmaIdle++
+			}
+		}
+	}
+	if w.cfg.MinPool > 0 && rdmaIdle > w.cfg.MaxPool-w.cfg.MinPool {
+		return "@idle-rdma-addresses-exceed-band"
+	}
+	return ""
 }
 
 func (w *World) undisposable(node *networkv1beta1.Node) int {
@@ -214,7 +393,7 @@ func (w *World) undisposable(node *networkv1beta1.Node) int {
 
 // capacityLeft tells whether the node could still serve pod p (a usable interface with room, or a free slot).
 func (w *World) capacityLeft(node *networkv1beta1.Node, p *podState) bool {
-	total, _, rdma, _ := w.attachedOrPending()
+	total, trunk, rdma, secondary := w.attachedOrPending()
 	wantHP := p.spec.RDMA && w.cfg.ERDMA
 	for _, ni := range node.Status.NetworkInterfaces {
 		hp := ni.NetworkInterfaceTrafficMode == networkv1beta1.NetworkInterfaceTrafficModeHighPerformance
@@ -225,10 +404,22 @@ func (w *World) capacityLeft(node *networkv1beta1.Node, p *podState) bool {
 			return true
 		}
 	}
-	if wantHP {
-		return rdma < 1 && total < w.cfg.Adapters-1
+	// free slots per flavor: one trunk and one RDMA interface at most, the rest ordinary
+	slots := w.cfg.Adapters - 1
+	rdmaSlots, trunkSlots := 0, 0
+	if w.cfg.ERDMA {
+		rdmaSlots = 1
 	}
-	return total < w.cfg.Adapters-1
+	if w.cfg.Trunk {
+		trunkSlots = 1
+	}
+	if total >= slots {
+		return false
+	}
+	if wantHP {
+		return rdma < rdmaSlots
+	}
+	return secondary < slots-rdmaSlots-trunkSlots || trunk < trunkSlots
 }
 
 var _ = fmt.Sprint
